@@ -374,6 +374,9 @@ func (p *Proxy) handleCONNECT(r responder.Responder, proxyReq *http.Request) err
 		req.Close = true
 		// Every exchange gets its own responder: it accumulates the headers, Content-Length and body of one response.
 		tunnelResponder := responder.NewRawHTTPResponder(tlsConn)
+		if req.Method == http.MethodHead {
+			tunnelResponder.AnswersHead()
+		}
 		if err := p.handleHTTP(tunnelResponder, req); err != nil {
 			slog.Error("Error processing HTTP request in CONNECT tunnel", "host", proxyReq.Host, "error", err)
 		}
